@@ -40,6 +40,28 @@ JOIN = z3.Function("str_join", S, z3.ArraySort(I, S), I, S)     # sep.join(seq) 
 K = z3.Int("k!seq")                                             # the one bound variable used for element lambdas
 
 
+# COUNT_TRUE(keep, k) = number of j < k with keep(j).  The keep predicate is a z3 Lambda over the bound variable K; terms mention it
+# only through a small integer key (hash-consed AST identity), because a lambda with If/And inside cannot occur in a pattern.
+_COUNT = z3.Function("count_true", I, I, I)
+_KEEP_KEYS: dict = {}
+
+
+def _keep_key(keep):
+    i = keep.get_id()
+    if i not in _KEEP_KEYS:
+        _KEEP_KEYS[i] = (len(_KEEP_KEYS), keep)      # the lambda is kept alive, so its AST id is not reused
+    return z3.IntVal(_KEEP_KEYS[i][0])
+
+
+def COUNT_TRUE(keep, k):
+    return _COUNT(_keep_key(keep), k)
+
+
+def count_true_def(keep, j):
+    """instance at j of the definition of COUNT_TRUE by primitive recursion (supplied as ground instances where needed)"""
+    return COUNT_TRUE(keep, j) == z3.If(j <= 0, 0, COUNT_TRUE(keep, j - 1) + z3.If(z3.simplify(z3.Select(keep, j - 1)), 1, 0))
+
+
 class AUnit(V):
     """Observation of a unit: (unit number term, text term)."""
     kind = "unit"
@@ -452,6 +474,11 @@ class UnitsExecutor(Executor):
         for (s, v) in self.ev(n.value, st):
             items = self.concrete_items(s, v)
             if items is None:
+                view = self.seq_view(s, v)
+                if view is not None and isinstance(view[1](K), AUnit):
+                    self.y_extend(s, view[0], view[1])
+                    out.append((s, NONE))
+                    continue
                 raise Unsupported(f"{self.loc(n)} yield from a symbolic iterable")
             states = [s]
             for it in items:
@@ -754,8 +781,12 @@ class UnitsExecutor(Executor):
                 raise Unsupported(f"{self.loc(node)} extend of an abstract list by {other!r}")
             m, oe = view
             n0, old = sq.length, sq.elem
+            if isinstance(other, VRef) and st.obj(other.ref).kind == "alist":
+                other = st.obj(other.ref).data
             same = isinstance(other, VSeq) and other.ekind == sq.ekind and sq.ekind != "unk"
-            if same:
+            if z3.is_int_value(z3.simplify(n0)) and z3.simplify(n0).as_long() == 0 and isinstance(other, VSeq) and (same or sq.ekind == "unk"):
+                new = VSeq(m, oe, other.ekind, tag=other.tag)            # extending an empty list: the result IS the other sequence
+            elif same:
                 new = VSeq(n0 + m, lambda k, n0=n0, old=old, oe=oe: _ite_val(k < n0, old(k), oe(k - n0)), sq.ekind)
             else:
                 new = VSeq(n0 + m, lambda k: VUnk("elem"), "unk")
@@ -776,7 +807,8 @@ class UnitsExecutor(Executor):
                 and o.kind == "list":
             # concrete list extended by a symbolic sequence: becomes an abstract list
             kinds = {repr(ekind_of_value(x)) for x in o.data}
-            ek = ekind_of_value(o.data[0]) if len(kinds) == 1 else ("unk" if o.data else getattr(args[0], "ekind", "unk"))
+            src = st.obj(args[0].ref).data if isinstance(args[0], VRef) and st.obj(args[0].ref).kind == "alist" else args[0]
+            ek = ekind_of_value(o.data[0]) if len(kinds) == 1 else ("unk" if o.data else getattr(src, "ekind", "unk"))
             items = list(o.data)
             base = VSeq(z3.IntVal(len(items)), lambda k, items=items: _sel(items, k), ek if items else ek)
             st.heap[obj.ref] = HeapObj("alist", base, None, o.fresh)
@@ -938,7 +970,7 @@ class UnitsExecutor(Executor):
                             for s5, a in zip(vals, acc):
                                 for (s6, v) in self.ev(en, s5):
                                     nv.append(s6)
-                                    na.append(a + [v])
+                                    na.append(a + [self.comp_value(s6, v, n)])
                             vals, acc = nv, na
                         outs.extend(acc)
             finally:
@@ -972,11 +1004,40 @@ class UnitsExecutor(Executor):
                 return vs[0] if len(vs) == 1 else VTuple(vs)
             ek = ekind_of_value(pure_val(sample[0])) if len(sample) == 1 else "unk"
             return st, VSeq(length, el, ek)
-        # filtered: unknown sub-sequence (length between 0 and n), elements of the sampled kind
+        # filtered: an order-preserving sub-sequence (length between 0 and n), elements of the sampled kind
         ek = ekind_of_value(pure_val(sample[0])) if len(sample) == 1 else "unk"
         sq = fresh_seq_like(ek, "filter")
         st.assume(z3.And(sq.length >= 0, sq.length <= length))
+        if getattr(self, "filter_facts", False) and _sort_of_kind(ek) is not None and conds and not sink:
+            # PY-COMP: [el(x) for x in xs if keep(x)] keeps exactly the elements with keep, in order.  Stated with the generic
+            # counting function COUNT_TRUE(keep, k) = |{j < k : keep[j]}| over the keep predicate as a lambda array:
+            #   len == COUNT_TRUE(keep, n);  keep[k] => 0 <= COUNT_TRUE(keep, k) < len and result[COUNT_TRUE(keep, k)] == el(k)
+            o_k, s_k, c_k = at(K)
+            if len(o_k) == 1 and len(o_k[0]) == 1 and not s_k and hasattr(pure_val(o_k[0][0]), "t"):
+                keep_body = c_k[0] if len(c_k) == 1 else z3.And(c_k)
+                keep = z3.Lambda([K], keep_body)
+                el_k = pure_val(o_k[0][0]).t
+                kk = z3.Int("k!flt")
+                cnt = COUNT_TRUE(keep, kk)
+                st.assume(sq.length == COUNT_TRUE(keep, length))
+                st.assume(count_true_def(keep, z3.IntVal(0)))
+                st.assume(z3.ForAll([kk], z3.Implies(
+                    z3.And(kk >= 0, kk < length, z3.substitute(keep_body, (K, kk))),
+                    z3.And(cnt >= 0, cnt < sq.length, sq.elem(cnt).t == z3.substitute(el_k, (K, kk)))), patterns=[cnt]))
+                sq.tag = ("filtered", keep, length)
         return st, sq
+
+    def comp_value(self, st, v, node):
+        """hook: the value an element expression of a comprehension over a symbolic sequence contributes"""
+        return v
+
+    def y_extend(self, st, length, elem):
+        """the generator yields a whole symbolic sequence of observed units"""
+        n0, nums, txts = self.y_get(st)
+        st.assume(length >= 0)
+        u = elem(K - n0)
+        st.ghost["Y"] = (z3.simplify(n0 + length), z3.Lambda([K], z3.If(K < n0, z3.Select(nums, K), u.num)),
+                         z3.Lambda([K], z3.If(K < n0, z3.Select(txts, K), u.text)))
 
     def e_ListComp(self, n, st):
         r = self._sym_comp(n, st, [n.elt])
